@@ -237,6 +237,8 @@ REGISTRY["C11"] = {
         # (failures are attributed to findings C10-F1/F2/F3 only if the run agrees step by step with the model of those deviations)
         {"name": "TestC10Boundary", "pkg": "props/c10", "label": "boundary-catch-events", "env": {"VERIF_UNRESTRICTED": "1"},
          "checks": {"quick": 100, "thorough": 2000}, "shards": {"quick": 4, "thorough": 8}},
+        # ... and so are the catch events behind an event-based gateway (one or two tokens waiting there): the C06 campaign
+        {"name": "TestC06EventGateway", "pkg": "props/c06", "label": "catch-events-behind-event-gateway", "checks": {"quick": 80, "thorough": 2000}, "shards": {"quick": 4, "thorough": 8}},
     ],
 }
 
